@@ -3,4 +3,4 @@ From Coq Require Extraction ExtrOcamlBasic.
 From Verif Require Import ConstPool.ConstPoolModel ConstPool.ConstPoolJudge ConstPool.ConstPoolPartition.
 Extraction Blacklist List String Int.
 Extraction "constpool.ml" ConstPoolModel.cp_init ConstPoolModel.cp_add ConstPoolModel.cp_fill
-  ConstPoolModel.psize ConstPoolModel.palign ConstPoolModel.pmin ConstPoolModel.gaps ConstPoolModel.embed_layout ConstPoolJudge.judge ConstPoolPartition.lost_step.
+  ConstPoolModel.psize ConstPoolModel.palign ConstPoolModel.pmin ConstPoolModel.gaps ConstPoolModel.embed_layout ConstPoolModel.log_layout ConstPoolJudge.judge ConstPoolPartition.lost_step.
